@@ -7,6 +7,8 @@ import (
 	"log/slog"
 
 	"github.com/sirupsen/logrus"
+
+	"github.com/form3tech-oss/f1/v2/internal/metrics"
 )
 
 type discardHandler struct{}
@@ -25,3 +27,7 @@ func DiscardLogrus() *logrus.Logger {
 	l.SetLevel(logrus.PanicLevel)
 	return l
 }
+
+// T.Time records its stage metric into the process-wide metrics instance, which
+// f1.New initialises; without it every T.Time call in a harness would panic.
+func init() { metrics.Init(true) }
